@@ -148,7 +148,7 @@ class Mode:
 
         rng = rng_for(10, spec["case"], 1)
         ispec = implicit.gen(rng, "quick", n_par=1)
-        ispec["N"] = min(ispec["N"], 9)
+        ispec["N"] = max(min(ispec["N"], 9), sum(ispec["sizes"]) + 2)
         c = implicit.build(ispec)
         Hi, _ = implicit.hamiltonians(c, sparse_input=bool(rng.integers(0, 2)))
         vecs = list(c["expl"])
